@@ -28,7 +28,7 @@ impl EvalCase {
             "expr": expr_to_json(&self.expr),
             "facts": value_to_json(&self.facts),
             "fns": self.fns.iter().map(|(k, f)| (k.clone(), json!({
-                "cacheable": f.cacheable, "fail_on": f.fail_on, "fail_first": f.fail_first
+                "cacheable": f.cacheable, "fail_on": f.fail_on, "fail_first": f.fail_first, "uncacheable_after": f.uncacheable_after
             }))).collect::<serde_json::Map<_, _>>(),
             "symbols": self.symbols.iter().map(|(k, v)| (k.clone(), value_to_json(v))).collect::<serde_json::Map<_, _>>(),
             "text": format!("{} on {}", show_expr(&self.expr), show_value(&self.facts)),
@@ -50,7 +50,7 @@ impl EvalCase {
                             .filter_map(|x| x.as_str().map(String::from))
                             .collect(),
                         fail_first: f.get("fail_first")?.as_u64()? as u32,
-                    },
+                        uncacheable_after: f.get("uncacheable_after").and_then(|x| x.as_u64()).unwrap_or(0) as u32 },
                 );
             }
         }
